@@ -246,6 +246,9 @@ def verifyNeAll (o : GroupOps G) (m : OvfMode) (pk : PubKey G) (c : Int)
 def verifyPrimaryProof (o : GroupOps G) (m : OvfMode) (pk : PubKey G) (eq : EqProof G)
     (ne : List (NeProof G)) (c : Int) (unrevealed : List String) : Outcome (List G) :=
   (verifyEquality o pk eq c unrevealed).bind fun t =>
+  -- a predicate can only be proven about a hidden attribute: for a revealed one no response
+  -- takes part in the equation, an `eq_proof.m` entry under its name is a dummy (repaired 643a1c8)
+  if ne.any (fun p => !unrevealed.contains p.pred.attr) then .err else
   (verifyNeAll o m pk c eq.m ne).map fun rest => t :: rest
 
 /-! ### request / proof consistency -/
